@@ -15,7 +15,7 @@ func init() {
 		Explanation: "Decides the policy clause 'when encryption is forced no connection (incoming, outgoing, plaintext retry) is used unencrypted' as guard structure on the boolean parameters, plus 'selected cipher is one of the offered ones' and 'the cipher reported for a peer is the negotiated one'. " +
 			"(R12.1) in btconn.Dial, with F=forceEncryption, E=enableEncryption: every write on a connection that is not the MSE wrapper requires F==false or E==false; every dial that can follow an MSE attempt requires F==false; the crypto_provide argument of HandshakeOutgoing contains mse.PlainText only under F==false; a return with a possibly-nil error returns the MSE connection unless F==false or E==false, and the MSE wrapper is used as the connection only after its HandshakeOutgoing returned nil (so a failed MSE handshake under F ends in a non-nil error). " +
 			"(R12.2) HandshakeOutgoing / HandshakeIncoming return nil only under selected!=0, isPowerOfTwo(selected), selected&offered!=0 about the value that is passed to updateCipher; the pass-through cipher is installed only in updateCipher under selected==PlainText. " +
-			"(R12.3) in btconn.Accept a possibly-nil-error return and every write on the connection require forceEncryption==false or isEncrypted==true; isEncrypted is set true only on the callback path that selects mse.RC4; the callback selects PlainText only under forceEncryption==false; forceEncryption && getSKey==nil panics before any I/O on the connection. " +
+			"(R12.3) in btconn.Accept a possibly-nil-error return and every write on the connection (in Accept or in a helper only Accept calls) require forceEncryption==false or evidence that the crypto_select callback ran and returned mse.RC4, established by whatever means the code uses: a test of a bool that is set non-false only where RC4 is the value the callback returns (stored in the callback, returned through helper results), or a test `s == mse.RC4` of a value that is zero or exactly the callback's return value; a test such as `cipher != 0` is no evidence; the callback (or the helper that computes its result) selects PlainText only under forceEncryption==false; the MSE responder handshake runs only inside Accept or such a helper. " +
 			"(R12.4) Dial's forceEncryption originates from Config.ForceOutgoingEncryption, enableEncryption from !Config.DisableOutgoingEncryption, Accept's forceEncryption from Config.ForceIncomingEncryption, through the two Run signatures (argument positions). " +
 			"(R12.5) Peer.EncryptionCipher is written only by peer.New from the Cipher field of the handshaker whose connection is used, that field only from the cipher result of Dial/Accept, which is the result of HandshakeOutgoing / of the crypto-select callback. " +
 			"NOT decided: handshake agreement for all keys, pad lengths 0..511 on each of the four pads, payload sizes and chunkings, the bounded sync scan (value-level arithmetic on runtime lengths); the combination force && disable for one direction is excluded by the property's quantifier and not checked.",
@@ -42,6 +42,8 @@ type c12 struct {
 	wrappers     map[*types.Func]bool
 	plainBit     int64
 	rc4Bit       int64
+	tMethod      *types.Named
+	in           *c12In
 }
 
 func runC12(c *kit.Ctx) {
@@ -57,6 +59,7 @@ func runC12(c *kit.Ctx) {
 		c.FuncObj("internal/mse", "WrapConn"):  true,
 		c.FuncObj("internal/mse", "NewStream"): true,
 	}
+	x.tMethod = c.Named("internal/mse", "CryptoMethod")
 	x.plainBit = constIntOf(c, "internal/mse", "PlainText")
 	x.rc4Bit = constIntOf(c, "internal/mse", "RC4")
 	c.Check(x.plainBit != 0 && x.rc4Bit != 0 && x.plainBit&x.rc4Bit == 0 && x.plainBit&(x.plainBit-1) == 0 && x.rc4Bit&(x.rc4Bit-1) == 0,
@@ -85,6 +88,10 @@ type connSafety struct {
 	gKill func(ssa.Instruction) bool
 	d     map[*ssa.Alloc]*kit.Flow
 	busy  map[*ssa.Alloc]bool
+	// helperOK (optional): the callee is a helper whose own writes on the
+	// connection are all discharged inside it (the obligation is checked where
+	// the write is, not at the call).
+	helperOK func(*ssa.Function) bool
 }
 
 func (s *connSafety) guard(at ssa.Instruction) bool {
@@ -324,6 +331,9 @@ func (s *connSafety) writeSinks() []wsink {
 			if pi >= 0 && callee != nil && callee.Blocks != nil && !x.paramWrites(callee, pi, 3) {
 				continue // callee only closes / reads / sets deadlines
 			}
+			if pi >= 0 && callee != nil && callee.Blocks != nil && s.helperOK != nil && s.helperOK(callee) {
+				continue // every write inside the helper is discharged there
+			}
 			name := "<dynamic>"
 			if o := kit.CalleeObj(cc); o != nil {
 				name = o.Name()
@@ -387,6 +397,15 @@ func (x *c12) mseWrapperUse(rule string, fn *ssa.Function, hs *types.Func, errId
 			}
 		})
 		if len(calls) == 0 {
+			// the wrapper may be the result of a helper that made the handshake
+			if hc, ei, ok := x.wrapperFromHelper(mi.X, hs, errIdx, 2); ok {
+				if callSucceeded(x.c, hc, ei).Before(mi) {
+					x.c.OK(rule, key, posOf(ins), "MSE wrapper (result of %s, which returns it together with the error of %s) becomes the connection only after that error was nil", hc.Call.StaticCallee().Name(), hs.Name())
+				} else {
+					x.c.Bad(rule, key, posOf(ins), "the MSE wrapper becomes the connection on a path where the error returned by %s (the error of %s) has not been tested nil: after a failed MSE handshake the half-negotiated stream would be used", hc.Call.StaticCallee().Name(), hs.Name())
+				}
+				return
+			}
 			x.c.Bad(rule, key, posOf(ins), "the MSE wrapper is used as the connection but no %s call on it is found in %s", hs.Name(), kit.FuncName(fn))
 			return
 		}
@@ -399,6 +418,66 @@ func (x *c12) mseWrapperUse(rule string, fn *ssa.Function, hs *types.Func, errId
 		x.c.Bad(rule, key, posOf(ins), "the MSE wrapper becomes the connection on a path where %s has not returned nil: after a failed MSE handshake the half-negotiated stream would be used", hs.Name())
 	})
 	return n
+}
+
+// wrapperFromHelper: v is result i of a static call to a module function h
+// each of whose returns either returns a certainly non-nil error, or returns
+// as result i the value on which hs was called in h together with that
+// call's error (or after that call's error was tested nil). Returns the call
+// of h and the index of h's error result.
+func (x *c12) wrapperFromHelper(v ssa.Value, hs *types.Func, errIdx, depth int) (*ssa.Call, int, bool) {
+	ex, ok := v.(*ssa.Extract)
+	if !ok || depth <= 0 {
+		return nil, 0, false
+	}
+	hc, ok := ex.Tuple.(*ssa.Call)
+	if !ok {
+		return nil, 0, false
+	}
+	h := hc.Call.StaticCallee()
+	if h == nil || h.Blocks == nil || h.Pkg == nil || !kit.InModule(h.Pkg.Pkg.Path()) {
+		return nil, 0, false
+	}
+	res := h.Signature.Results()
+	ei := res.Len() - 1
+	if ei < 0 || !types.Identical(res.At(ei).Type(), types.Universe.Lookup("error").Type()) {
+		return nil, 0, false
+	}
+	ef := newErrFacts(x.c, h)
+	nOK := 0
+	for _, r := range returnsOf(h) {
+		if r.Block() == h.Recover {
+			continue
+		}
+		if ef.nonNil(r.Results[ei], r, nil) {
+			continue
+		}
+		w := r.Results[ex.Index]
+		good := false
+		kit.Instrs(h, func(j ssa.Instruction) {
+			call, ok := j.(*ssa.Call)
+			if !ok || kit.CalleeObj(&call.Call) != hs {
+				return
+			}
+			recv := kit.Canon(argOf(&call.Call, 0))
+			if !(recv.V == w || ((recv.Kind == "field" || recv.Kind == "fieldaddr") && recv.Base() != nil && recv.Base().V == w)) {
+				return
+			}
+			if resultOf(call, errIdx)[r.Results[ei]] || callSucceeded(x.c, call, errIdx).Before(r) {
+				good = true
+			}
+		})
+		if !good {
+			if c2, e2, ok := x.wrapperFromHelper(w, hs, errIdx, depth-1); ok && callSucceeded(x.c, c2, e2).Before(r) {
+				good = true
+			}
+		}
+		if !good {
+			return nil, 0, false
+		}
+		nOK++
+	}
+	return hc, ei, nOK > 0
 }
 
 // ---- R12.1 outgoing ---------------------------------------------------------------
@@ -680,8 +759,8 @@ func (x *c12) selection() {
 		}
 		c.Floor("R12.2", "returns of HandshakeIncoming whose error may be nil", len(succ), 1)
 		for _, s := range sortSites(c.CallSites(x.hsIn)) {
-			if s.Fn != x.accept {
-				c.Bad("R12.2", k.key(s.Fn, "HandshakeIncoming"), posOf(s.Instr), "MSE responder handshake outside btconn.Accept: its crypto_select callback is not tied to forceEncryption")
+			if !x.inc().isHelper(topFn(s.Fn)) {
+				c.Bad("R12.2", k.key(s.Fn, "HandshakeIncoming"), posOf(s.Instr), "MSE responder handshake outside btconn.Accept (and the helpers only Accept calls): its crypto_select callback is not tied to forceEncryption")
 			}
 		}
 	}
